@@ -212,8 +212,18 @@ func mustInt(s string) sdkmath.Int {
 }
 
 // c05Run executes one case against the real matching engine and checks the oracle.
-func c05Run(t rec.TB, r *rec.Rec, c *c05Case) {
-	r.Eval()
+// c05Match builds the order book and pools of a case and runs the matching engine on them.
+type c05Outcome struct {
+	all           []*hOrder
+	undistributed sdkmath.Int
+	quoteDiff     sdkmath.Int
+	matchPrice    sdkmath.LegacyDec
+	matched       bool
+	dirClass      string
+}
+
+func c05Match(r *rec.Rec, c *c05Case) *c05Outcome {
+	out := &c05Outcome{}
 	var all []*hOrder
 	ob := amm.NewOrderBook()
 	for i := range c.Orders {
@@ -241,7 +251,9 @@ func c05Run(t rec.TB, r *rec.Rec, c *c05Case) {
 			minP, maxP := sdkmath.LegacyMustNewDecFromStr(pl.Min), sdkmath.LegacyMustNewDecFromStr(pl.Max)
 			cur := rx.ToLegacyDec().Quo(ry.ToLegacyDec())
 			if amm.ValidateRangedPoolParams(minP, maxP, cur) != nil {
-				r.Class("ranged-params-inadmissible-skipped")
+				if r != nil {
+					r.Class("ranged-params-inadmissible-skipped")
+				}
 				continue
 			}
 			rp, err := amm.CreateRangedPool(rx, ry, minP, maxP, cur)
@@ -296,8 +308,16 @@ func c05Run(t rec.TB, r *rec.Rec, c *c05Case) {
 		dirClass = ob.PriceDirection(last).String()
 		matchPrice, quoteDiff, matched = ob.Match(last)
 	}
-	_ = matchPrice
 
+	out.all, out.undistributed, out.quoteDiff, out.matchPrice, out.matched, out.dirClass = all, undistributed, quoteDiff, matchPrice, matched, dirClass
+	return out
+}
+
+func c05Run(t rec.TB, r *rec.Rec, c *c05Case) {
+	r.Eval()
+	oc := c05Match(r, c)
+	all, undistributed, quoteDiff, matched, dirClass := oc.all, oc.undistributed, oc.quoteDiff, oc.matched, oc.dirClass
+	_, _, _, _ = undistributed, quoteDiff, matched, dirClass
 	// ---- oracle ----
 	zero := sdkmath.ZeroInt()
 	buyRecv, sellPaid, buyPaid, sellRecv := zero, zero, zero, zero
